@@ -6,7 +6,7 @@ open MosnVerif.Gen.ProxyPhase MosnVerif.Gen.ProxyReason MosnVerif.Gen.ProxyRetry
 /-- a forwarding step that only sends (trace grows by upstream-side events), may complete the request
 (`reqSent`, timers) and moves to the next forwarding phase -/
 theorem inv_fwd_step (c : Cfg) (ar aq : Nat) (s : S) (h : Inv c ar aq s) (hrun : s.running = true)
-    (q : Phase) (t : List Ev) (rq pt gt rd : Bool)
+    (q : Phase) (t : List Ev) (rq pt gt rd : Bool) (gg : Nat)
     (hp : s.phase = .DownRecvData ∨ s.phase = .DownRecvTrailer ∨ s.phase = .Oneway)
     (hq : (s.phase ≠ .Oneway ∧ q = s.phase.next) ∨ (s.phase = .Oneway ∧ q = .WaitNotify))
     (hone : s.phase = .Oneway → c.oneway = false)
@@ -16,7 +16,7 @@ theorem inv_fwd_step (c : Cfg) (ar aq : Nat) (s : S) (h : Inv c ar aq s) (hrun :
     (hgl : c.oneway = false → rq = true → gt = true ∨ s.globalExpired = true)
     (h29 : c.oneway = false → s.pass = 0 →
       (q = .DownRecvTrailer → rq = true ∨ c.hasTrailers = true) ∧ (q = .Oneway → rq = true) ∧ (q = .WaitNotify → rq = true)) :
-    Inv c ar aq { s with phase := q, trace := t, reqSent := rq, perTry := pt, global := gt, recvDone := rd } := by
+    Inv c ar aq { s with phase := q, trace := t, reqSent := rq, perTry := pt, global := gt, recvDone := rd, gtGen := gg } := by
   have hcl := inv_not_cleaned h hrun
   have hfwd : fwdPhase s.phase = true := by rcases hp with hp | hp | hp <;> simp [hp, fwdPhase]
   have hqf : fwdPhase q = true ∧ upPhase q = false ∧ prePhase q = false ∧ q ≠ .End ∧ q ≠ .Retry ∧
@@ -96,12 +96,12 @@ theorem nLog_dataTrace (s : S) (e : Nat → Ev) (he : ∀ k, isLog (e k) = false
   · rfl
 
 /-- what a forwarding phase body that sent something leaves behind -/
-def sent (s : S) (t : List Ev) (rq pt gt rd : Bool) : S :=
-  { s with trace := t, reqSent := rq, perTry := pt, global := gt, recvDone := rd }
+def sent (s : S) (t : List Ev) (rq pt gt rd : Bool) (gg : Nat) : S :=
+  { s with trace := t, reqSent := rq, perTry := pt, global := gt, recvDone := rd, gtGen := gg }
 
 /-- end of a sending phase body (`receiveData`, `receiveTrailers`): `processError`, then the next forwarding phase -/
 theorem finish_sent (c : Cfg) (ar aq : Nat) (s : S) (h : Inv c ar aq s) (hrun : s.running = true)
-    (hpdn : processDone s = false) (t : List Ev) (rq pt gt rd : Bool)
+    (hpdn : processDone s = false) (t : List Ev) (rq pt gt rd : Bool) (gg : Nat)
     (hp : s.phase = .DownRecvData ∨ s.phase = .DownRecvTrailer)
     (ht1 : snd t = snd s.trace) (ht2 : nLog t = nLog s.trace)
     (hrq1 : s.reqSent = true → rq = true) (hpt : c.oneway = true → pt = false) (hgt1 : s.global = true → gt = true)
@@ -109,13 +109,13 @@ theorem finish_sent (c : Cfg) (ar aq : Nat) (s : S) (h : Inv c ar aq s) (hrun : 
     (hgl : c.oneway = false → rq = true → gt = true ∨ s.globalExpired = true)
     (h29 : c.oneway = false → s.pass = 0 →
       (s.phase.next = .DownRecvTrailer → rq = true ∨ c.hasTrailers = true) ∧ (s.phase.next = .Oneway → rq = true)) :
-    Inv c ar aq (finishPhase c (sent s t rq pt gt rd)) := by
+    Inv c ar aq (finishPhase c (sent s t rq pt gt rd gg)) := by
   have hcl := inv_not_cleaned h hrun
   simp only [processDone, Bool.or_eq_false_iff] at hpdn
   obtain ⟨⟨hpd, hdr⟩, hur⟩ := hpdn
   have hsr := (h.k7 hcl).1
   have hdir : s.direct = false := not_direct_of_phase h.k7 hcl (by rcases hp with hp | hp <;> (rw [hp]; decide))
-  have hb1 : Base c ar aq (sent s t rq pt gt rd) := by
+  have hb1 : Base c ar aq (sent s t rq pt gt rd gg) := by
     obtain ⟨k1, k2, k4, k9, k10, k11, k12, k13, k14, k20, k21, k22, k31⟩ := h.base
     refine ⟨?_, ?_, ?_, k9, k10, k11, k12, ?_, k14, k20, ?_, k22, k31⟩
     · simpa [K1, sent, ht1] using k1
@@ -134,7 +134,7 @@ theorem finish_sent (c : Cfg) (ar aq : Nat) (s : S) (h : Inv c ar aq s) (hrun : 
   · intro hh; simp [sent, hur] at hh
   · intro hh; simp [sent, hur] at hh
   · intro _ _
-    have := inv_fwd_step c ar aq s h hrun s.phase.next t rq pt gt rd (by rcases hp with hp | hp <;> simp [hp])
+    have := inv_fwd_step c ar aq s h hrun s.phase.next t rq pt gt rd gg (by rcases hp with hp | hp <;> simp [hp])
       (Or.inl ⟨by rcases hp with hp | hp <;> simp [hp], rfl⟩) (by intro hh; rcases hp with hp | hp <;> (rw [hp] at hh; cases hh))
       ht1 ht2 hrq1 hpt hgt1 hgt2 hgl
       (by
@@ -178,14 +178,14 @@ theorem inv_work_drd (c : Cfg) (ar aq : Nat) (s : S) (h : Inv c ar aq s) (hrun :
     · simp only [Bool.not_eq_true] at hpdn
       cases ht : c.hasTrailers with
       | true =>
-        have e : receiveData c s (!true) = sent s (dataTrace s (fun k => Ev.ud k false)) s.reqSent s.perTry s.global false := by
+        have e : receiveData c s (!true) = sent s (dataTrace s (fun k => Ev.ud k false)) s.reqSent s.perTry s.global false s.gtGen := by
           unfold receiveData
           rw [if_neg (by simp [hpdn])]
           simp only [Bool.not_true, Bool.false_eq_true, if_false]
           rw [if_neg (by show ¬ s.procDone = true; simp [hpd])]
           rfl
         rw [e]
-        apply finish_sent c ar aq s h hrun hpdn _ _ _ _ _ (Or.inl hp)
+        apply finish_sent c ar aq s h hrun hpdn _ _ _ _ _ _ (Or.inl hp)
         · exact snd_dataTrace s _ (fun _ _ => rfl)
         · exact nLog_dataTrace s _ (fun _ => rfl)
         · exact fun hh => hh
@@ -199,14 +199,15 @@ theorem inv_work_drd (c : Cfg) (ar aq : Nat) (s : S) (h : Inv c ar aq s) (hrun :
           right; exact ht
       | false =>
         have e : receiveData c s (!false) = sent s (dataTrace s (fun k => Ev.ud k true))
-            true (s.perTry || (s.up.isSome && !c.oneway && c.tryTimeout)) (s.global || (s.up.isSome && !c.oneway)) true := by
+            true (s.perTry || (s.up.isSome && !c.oneway && c.tryTimeout)) (s.global || (s.up.isSome && !c.oneway)) true
+            (if (s.up.isSome && !c.oneway) = true then s.gtGen + 1 else s.gtGen) := by
           unfold receiveData
           rw [if_neg (by simp [hpdn])]
           simp only [Bool.not_false, if_true]
           rw [if_neg (by show ¬ s.procDone = true; simp [hpd])]
           rfl
         rw [e]
-        apply finish_sent c ar aq s h hrun hpdn _ _ _ _ _ (Or.inl hp)
+        apply finish_sent c ar aq s h hrun hpdn _ _ _ _ _ _ (Or.inl hp)
         · exact snd_dataTrace s _ (fun _ _ => rfl)
         · exact nLog_dataTrace s _ (fun _ => rfl)
         · exact fun _ => rfl
@@ -218,7 +219,7 @@ theorem inv_work_drd (c : Cfg) (ar aq : Nat) (s : S) (h : Inv c ar aq s) (hrun :
           exact ⟨fun _ => Or.inl rfl, fun _ => rfl⟩
   · simp only [hd, Bool.false_eq_true, if_false]
     simp only [Bool.not_eq_true] at hd
-    have := inv_fwd_step c ar aq s h hrun s.phase.next s.trace s.reqSent s.perTry s.global s.recvDone (Or.inl hp)
+    have := inv_fwd_step c ar aq s h hrun s.phase.next s.trace s.reqSent s.perTry s.global s.recvDone s.gtGen (Or.inl hp)
       (Or.inl ⟨by simp [hp], rfl⟩) (by intro hh; rw [hp] at hh; cases hh) rfl rfl (fun hh => hh) (fun ho => (h21 ho).1)
       (fun hh => hh) (fun ho => (h21 ho).2) (fun how hq => h24 how hq hrsome)
       (by
@@ -257,14 +258,15 @@ theorem inv_work_drt (c : Cfg) (ar aq : Nat) (s : S) (h : Inv c ar aq s) (hrun :
       simp [processDone, hpd, h1, h2] at hpdn
     · simp only [Bool.not_eq_true] at hpdn
       have e : receiveTrailers c s = sent s (dataTrace s Ev.ut)
-          true (s.perTry || (s.up.isSome && !c.oneway && c.tryTimeout)) (s.global || (s.up.isSome && !c.oneway)) true := by
+          true (s.perTry || (s.up.isSome && !c.oneway && c.tryTimeout)) (s.global || (s.up.isSome && !c.oneway)) true
+            (if (s.up.isSome && !c.oneway) = true then s.gtGen + 1 else s.gtGen) := by
         unfold receiveTrailers
         rw [if_neg (by simp [hpdn])]
         simp only []
         rw [if_neg (by show ¬ s.procDone = true; simp [hpd])]
         rfl
       rw [e]
-      apply finish_sent c ar aq s h hrun hpdn _ _ _ _ _ (Or.inr hp)
+      apply finish_sent c ar aq s h hrun hpdn _ _ _ _ _ _ (Or.inr hp)
       · exact snd_dataTrace s _ (fun _ _ => rfl)
       · exact nLog_dataTrace s _ (fun _ => rfl)
       · exact fun _ => rfl
@@ -276,7 +278,7 @@ theorem inv_work_drt (c : Cfg) (ar aq : Nat) (s : S) (h : Inv c ar aq s) (hrun :
         exact ⟨fun _ => Or.inl rfl, fun _ => rfl⟩
   · simp only [hd, Bool.false_eq_true, if_false]
     simp only [Bool.not_eq_true] at hd
-    have := inv_fwd_step c ar aq s h hrun s.phase.next s.trace s.reqSent s.perTry s.global s.recvDone (Or.inr (Or.inl hp))
+    have := inv_fwd_step c ar aq s h hrun s.phase.next s.trace s.reqSent s.perTry s.global s.recvDone s.gtGen (Or.inr (Or.inl hp))
       (Or.inl ⟨by simp [hp], rfl⟩) (by intro hh; rw [hp] at hh; cases hh) rfl rfl (fun hh => hh) (fun ho => (h21 ho).1)
       (fun hh => hh) (fun ho => (h21 ho).2) (fun how hq => h24 how hq hrsome)
       (by
@@ -317,7 +319,7 @@ theorem inv_work_oneway (c : Cfg) (ar aq : Nat) (s : S) (h : Inv c ar aq s) (hru
     fun a b d => or3_nd (h.k24 hcl a b d) (not_direct_of_phase h.k7 hcl (by rw [hp]; decide))
     have h21 := h.k21
     rw [hnext]
-    have := inv_fwd_step c ar aq s h hrun .WaitNotify s.trace s.reqSent s.perTry s.global s.recvDone (Or.inr (Or.inr hp))
+    have := inv_fwd_step c ar aq s h hrun .WaitNotify s.trace s.reqSent s.perTry s.global s.recvDone s.gtGen (Or.inr (Or.inr hp))
       (Or.inr ⟨hp, rfl⟩) (fun _ => how) rfl rfl (fun hh => hh) (fun ho => (h21 ho).1)
       (fun hh => hh) (fun ho => (h21 ho).2) (fun how hq => h24 how hq hrsome)
       (by
